@@ -106,13 +106,14 @@ def _followup(case, ans):
         return None
     op = case.op
     a = case.args
-    if op == "siqs_walk":
+    if op in ("siqs_walk", "siqs_custom"):
         if "a" not in h:
             return None
         sq = dict(zip(h["fb"].split(","), h["sq"].split(",")))
         sel = h["sel"]
         selr = "-" if sel == "-" else ",".join(sq[p] for p in sel.split(","))
-        return (f"siqs_walk_m {h['N']} {h['mm']} {h['so']} {h['fb']} {h['sq']} {sel} {selr} {h['a']} {a[7]} {a[8]} {a[9]}", body)
+        spec = a[7:10] if op == "siqs_walk" else a[6:9]
+        return (f"siqs_walk_m {h['N']} {h['mm']} {h['so']} {h['fb']} {h['sq']} {sel} {selr} {h['a']} {spec[0]} {spec[1]} {spec[2]}", body)
     if op == "mpqs_poly":
         return (f"mpqs_poly_m {h['N']} {h['d']} {h['r']} {h['so']} {h['fb']} {h['sq']}", body)
     if op == "mpqs_batchinv":
@@ -180,7 +181,7 @@ def oracle_siqs(case, h, body):
     if toks[-1] == "panic":
         # forced (unrealistic) parameter combinations trip the size assertions of _finish_polynomial: no polynomial is
         # handed to the sieve, which is not a statement about roots. With the driver's own parameters it is reported.
-        if case.args[2:5] == ["auto", "auto", "auto"]:
+        if case.op == "siqs_walk" and case.args[2:5] == ["auto", "auto", "auto"]:
             return "panic while preparing polynomials with the driver's own parameters (A=%s)" % h.get("a")
         toks = toks[:-1]
         if len(toks) < 8:
@@ -213,6 +214,10 @@ def oracle_siqs(case, h, body):
         i += 9
         seen += 1
         where = f"A={A} index={idx}"
+        if case.op == "siqs_custom" and abs((B * B - N) // ((4 if type2 else 1) * A)) >> 255:
+            # A chosen by the generator far below n / 2^255: the exact C does not fit an I256 and is stored truncated (the code
+            # checks the size of the previous polynomial's C only). Outside the domain of the size theorems; model compared only.
+            continue
         if kind != (2 if type2 else 1):
             return f"{where}: polynomial kind {kind} for n mod 4 = {N % 4}"
         if len(r1p) != len(fb) or len(r2p) != len(fb):
@@ -347,7 +352,7 @@ def oracle(case, ans):
     if h is None:
         return "malformed answer"
     try:
-        if case.op == "siqs_walk":
+        if case.op in ("siqs_walk", "siqs_custom"):
             return oracle_siqs(case, h, body)
         if case.op == "mpqs_poly":
             return oracle_mpqs(case, h, body)
@@ -435,6 +440,50 @@ def siqs_cases(rng, tier, scale):
         n = semiprime(rng, rng.choice([40, 64, 96]), rng.choice([1, 3, 5, 7]))
         k = rng.choice([2, 6, 3 * 5 * 7, 11 * 13])
         yield Case(f"siqs_walk {n} {k} 80 3 32768 3 0 1 0 64", k=False, tag=f"k{k}")
+
+
+def qr_indices(N, count):
+    """indices (in FBase order: primes for which N is a square, 2 first) of the first `count` primes of the factor base with a
+    non-zero root; mirrors nothing of yamaquasi: plain Legendre symbols"""
+    out, idx, p = [], 0, 2
+    while len(out) < count:
+        if p == 2 or N % p == 0 or pow(N, (p - 1) // 2, p) == 1:
+            if p != 2 and N % p:
+                out.append((idx, p))
+            idx += 1
+        p = gen.next_prime(p)
+    return out
+
+
+def siqs_custom_cases(rng, tier, scale):
+    """A chosen here (not by select_a): products of 1..8 factor-base primes, also far away from the optimal size, so that the
+    size assertions of _finish_polynomial are reached on both sides (the model must predict the same panics)"""
+    for _ in range(12 * scale):
+        bits = rng.choice([24, 40, 64, 100, 150, 200, 260] + ([330, 400, 460, 500] if tier != "quick" else [300]))
+        n = semiprime(rng, bits, rng.choice([1, 3, 5, 7]))
+        k = rng.choice([1, 1, 3])
+        N = n * k
+        fbs = rng.choice([16, 40, 80, 200])
+        cand = qr_indices(N, fbs // 2)
+        if fbs >= 80 and rng.randrange(2):
+            cand = cand[len(cand) // 2:]
+        nf = rng.choice([1, 2, 3, 4, 5, 6, 8])
+        sel = sorted(rng.sample(cand, min(len(cand), rng.choice([nf + 1, 2 * nf, 4 * nf]))))
+        if len(sel) < nf:
+            continue
+        chosen = rng.sample(sel, nf)
+        a = math.prod(p for _, p in chosen)
+        mm = rng.choice([4096, 32768, 65536, 524288])
+        step, tail, mx = (1, 0, 64)
+        yield Case(f"siqs_custom {n} {k} {fbs} {mm} {','.join(str(i) for i, _ in sel)} {a} {step} {tail} {mx}", k=False, tag="custom")
+    # A that is not the product of selected primes / has a square factor: prepare_a must fail the same way
+    for _ in range(3 * scale):
+        n = semiprime(rng, rng.choice([40, 64, 100]), rng.choice([1, 3, 5, 7]))
+        cand = qr_indices(n, 12)
+        sel = sorted(rng.sample(cand, 6))
+        a = sel[0][1] * sel[1][1] * rng.choice([sel[0][1], 1009, 2, 1])
+        yield Case(f"siqs_custom {n} 1 40 32768 {','.join(str(i) for i, _ in sel)} {a} 1 0 8", k=False, o=False, profiles=["chk"],
+                   tag="custom-bad")
 
 
 def d_primes_3mod4(lo, count, N=None):
@@ -536,6 +585,7 @@ def cases(tier, rng, extended=False):
     if extended:
         scale *= 4
     yield from siqs_cases(rng, tier, scale)
+    yield from siqs_custom_cases(rng, tier, scale)
     yield from mpqs_cases(rng, tier, scale)
     yield from mpqs_outside(rng, scale)
     yield from qs_cases(rng, tier, scale)
@@ -544,6 +594,8 @@ def cases(tier, rng, extended=False):
 def corpus_case(line):
     if line.startswith("!chk "):
         return Case(line[5:], k=False, o=False, profiles=["chk"])
+    if line.startswith("!noo "):
+        return Case(line[5:], k=False, o=False)
     return Case(line, k=False)
 
 
@@ -560,9 +612,13 @@ def klass(case, ans):
         return f"{op}/{body}"
     if body.endswith("panic"):
         tags.append("panic")
-    if op == "siqs_walk":
+    if op in ("siqs_walk", "siqs_custom"):
         toks = body.split(" ")
         nf = len(ints(toks[2].split("=", 1)[1])) if len(toks) > 2 else "?"
+        if op == "siqs_custom":
+            tags.append("custom")
+            if len(toks) > 12 and toks[8] == "P" and abs(int(toks[12])) >> 253:
+                tags.append("C-oversize")
         fbn = len(h["fb"].split(","))
         tags.append("fb<=100" if fbn <= 100 else "fb<=1000" if fbn <= 1000 else "fb>1000")
         if case.args[1] != "1":
